@@ -98,7 +98,7 @@ def module_src(deco, sig, kind):
                 "block": "    v = yield DebugBatchItem('c09', x)\n    return ['async', recv, v, y, z]\n", "raise": "    raise Boom(['async', recv, x, y, z])\n"}[k] + "\n"
     if not (deco == "per_instance"):
         src += define(deco, kind, "f", params, "", "None", "", sig) + "\n"
-    src += "class Base(object):\n    def __init__(self, nm):\n        self.nm = nm\n\n"
+    src += "class Base(object):\n    def __init__(self, nm, truthy=True):\n        self.nm = nm\n        self.truthy = truthy\n\n    def __bool__(self):\n        return self.truthy\n\n"
     src += define(deco, kind, "m", params, "self", "self.nm", "method", sig) + "\n"
     if deco not in FUNCTION_STYLE:
         src += define(deco, kind, "cm", params, "cls", "cls.__name__", "classmethod", sig) + "\n"
@@ -169,8 +169,18 @@ def check(case, ctx):
         kwargs["z"] = z
     y_eff = (y if y is not None else 10) if "y" in sig else None
     z_eff = (z if z is not None else 20) if "kz" in sig else None
-    inst = ns["Base"]("i1")
-    subinst = ns["Sub"]("s1")
+    truthy = not case.get("falsy_instance", False)
+    inst = ns["Base"]("i1", truthy)
+    subinst = ns["Sub"]("s1", truthy)
+    # another instance of the same class touches the attribute first (per-class caches must not leak its binding)
+    if binding in ("instance", "class", "subclass") and case.get("warm_other_instance", True):
+        other = ns["Base"]("i0") if binding != "subclass" else ns["Sub"]("s0")
+        if deco == "pure":
+            outcome(lambda: other.m(1).value())
+        else:
+            outcome(lambda: other.m(1))
+            outcome(lambda: other.m.asynq(1).value())
+        outcome(lambda: ns["Base"].m)
     pre = []
     if binding == "function":
         c, recv = ns["f"], None
@@ -209,7 +219,7 @@ def check(case, ctx):
     got["get_async_fn"] = outcome(lambda: get_async_fn(c)(*a, **kwargs).value())
     got["get_async_or_sync_fn"] = outcome(lambda: (lambda r: r.value() if isinstance(r, FutureBase) else r)(get_async_or_sync_fn(c)(*a, **kwargs)))
     viol = []
-    desc = "%s on %s, signature (%s), %s body, called with %r %r" % (deco, binding, SIGS[sig], kind, tuple(args), kwargs)
+    desc = "%s on %s%s, signature (%s), %s body, called with %r %r" % (deco, binding, "" if truthy else " (instance with __bool__ False)", SIGS[sig], kind, tuple(args), kwargs)
     for conv, o in got.items():
         exp = exp_sync if conv == "sync call" else exp_async
         if o != exp:
@@ -230,6 +240,7 @@ def check(case, ctx):
     ctx.label("binding=" + binding)
     ctx.label("body=" + kind)
     ctx.label("keyword-spelling", bool(kwargs))
+    ctx.label("falsy-instance", not truthy and binding in ("instance", "class", "subclass"))
     ctx.nontrivial(case)
     return viol
 
@@ -238,11 +249,13 @@ def enum_cells(tier):
     for c in CELLS:
         yield dict(c, x=3, y=None, z=None, x_kw=False, y_kw=False)
         yield dict(c, x=4, y=7, z=9, x_kw=False, y_kw=True)
+        if c["binding"] in ("instance", "class", "subclass"):
+            yield dict(c, x=5, y=None, z=None, x_kw=False, y_kw=False, falsy_instance=True)
 
 
 def strategy(tier):
-    return st.builds(lambda c, x, y, z, xk, yk: dict(c, x=x, y=y, z=z, x_kw=xk, y_kw=yk), st.sampled_from(CELLS), st.integers(0, 5),
-                     st.one_of(st.none(), st.integers(0, 5)), st.one_of(st.none(), st.integers(0, 5)), st.booleans(), st.booleans())
+    return st.builds(lambda c, x, y, z, xk, yk, fi: dict(c, x=x, y=y, z=z, x_kw=xk, y_kw=yk, falsy_instance=fi), st.sampled_from(CELLS), st.integers(0, 5),
+                     st.one_of(st.none(), st.integers(0, 5)), st.one_of(st.none(), st.integers(0, 5)), st.booleans(), st.booleans(), st.sampled_from([False, False, True]))
 
 
 def reduce_case(case):
